@@ -1052,3 +1052,99 @@ Proof.
   destruct (spec_accepts prog) eqn:E; [reflexivity|].
   apply (elab_none_iff prog d) in E. congruence.
 Qed.
+
+(* ------------------------------------------------------------------ one driver per assigned target, first-assignment order *)
+Definition has_key (ks : list lhs) (k : lhs) : bool := existsb (lhs_eqb k) ks.
+Definition add_key (ks : list lhs) (k : lhs) : list lhs := if has_key ks k then ks else ks ++ [k].
+
+Lemma am_keys_app_eq : forall (V : Type) (m : amap V) k v,
+  map fst (am_app m k v) = add_key (map fst m) k.
+Proof.
+  unfold add_key, has_key. induction m as [|[k0 vs] m IH]; intros k v; cbn; [reflexivity|].
+  destruct (lhs_eqb k k0) eqn:E; cbn; [reflexivity|].
+  rewrite IH. destruct (existsb (lhs_eqb k) (map fst m)); reflexivity.
+Qed.
+
+Lemma build_all_keys : forall rs m m', build_all rs m = Some m' ->
+  map fst (fst m') = fold_left add_key (map r_lhs rs) (map fst (fst m)).
+Proof.
+  induction rs as [|r rs IH]; intros m m' H; cbn in *.
+  - injection H as <-. reflexivity.
+  - destruct (build_m r m) as [m1|] eqn:E; [|discriminate].
+    rewrite (IH m1 m' H). f_equal. unfold build_m in E.
+    destruct (sel_of_lits (r_lits r)); [|discriminate].
+    destruct (existsb _ _); [discriminate|]. injection E as <-. cbn [fst].
+    apply am_keys_app_eq.
+Qed.
+
+Definition neqb (x y : lhs) : bool := negb (lhs_eqb y x).
+
+Lemma filter_comm : forall (A : Type) (f g : A -> bool) l,
+  filter f (filter g l) = filter g (filter f l).
+Proof.
+  intros. rewrite !filter_filter'. apply filter_ext. intro a. apply andb_comm.
+Qed.
+
+Lemma nodup_filter : forall P l, nodup_lhs (filter P l) = filter P (nodup_lhs l).
+Proof.
+  intros P. induction l as [|x l IH]; cbn [filter nodup_lhs]; [reflexivity|].
+  destruct (P x) eqn:E; cbn [nodup_lhs filter]; rewrite ?E.
+  - rewrite IH. f_equal. apply filter_comm.
+  - rewrite IH. rewrite filter_filter'. apply filter_ext_in. intros y _.
+    destruct (lhs_eqb y x) eqn:Eyx; cbn.
+    + apply lhs_eqb_eq in Eyx. subst y. rewrite E. reflexivity.
+    + rewrite andb_true_r. reflexivity.
+Qed.
+
+Lemma fold_add_key : forall l acc,
+  fold_left add_key l acc = acc ++ nodup_lhs (filter (fun y => negb (has_key acc y)) l).
+Proof.
+  induction l as [|x l IH]; intro acc; cbn [fold_left filter].
+  - cbn. rewrite app_nil_r. reflexivity.
+  - unfold add_key at 2. destruct (has_key acc x) eqn:E; cbn [negb].
+    + apply IH.
+    + rewrite IH. cbn [nodup_lhs]. rewrite <- app_assoc. cbn [app]. do 2 f_equal.
+      rewrite <- nodup_filter, filter_filter'. f_equal. apply filter_ext. intro y.
+      unfold has_key. rewrite existsb_app. cbn. rewrite orb_false_r, negb_orb.
+      rewrite (lhs_eqb_sym y x). apply andb_comm.
+Qed.
+
+Theorem elab_keys : forall prog d res, elab prog d = Some res -> map fst res = assigned prog.
+Proof.
+  intros prog d res H. unfold elab in H. rewrite elab_forest_recs in H.
+  destruct (build_all (recs prog) ([], [])) as [m|] eqn:E; [|discriminate].
+  cbn in H. injection H as <-. unfold finalize. cbn [pmap]. rewrite map_map.
+  assert (Hf : forall kv, fst (fin_one d kv) = fst kv) by (intros [[t|m0] vs]; reflexivity).
+  rewrite (map_ext _ _ Hf). rewrite (build_all_keys _ _ _ E). cbn [fst map].
+  rewrite fold_add_key. cbn [app]. unfold assigned. rewrite slits_keys.
+  f_equal. clear. induction (map r_lhs (recs prog)) as [|x l IH]; [reflexivity|].
+  cbn [filter]. change (has_key [] x) with false. cbn [negb]. f_equal. exact IH.
+Qed.
+
+Lemma nodup_lhs_in : forall l y, In y (nodup_lhs l) <-> In y l.
+Proof.
+  induction l as [|a l IH]; intro y; cbn; [tauto|].
+  rewrite filter_In, IH. split.
+  - intros [->|[H _]]; auto.
+  - intros [->|H]; [auto|]. destruct (lhs_eqb y a) eqn:E.
+    + left. symmetry. apply lhs_eqb_eq. exact E.
+    + right. split; [exact H|reflexivity].
+Qed.
+
+Lemma nodup_lhs_NoDup : forall l, NoDup (nodup_lhs l).
+Proof.
+  induction l as [|a l IH]; cbn; constructor.
+  - rewrite filter_In. intros [_ H]. rewrite lhs_eqb_refl in H. discriminate.
+  - apply NoDup_filter. exact IH.
+Qed.
+
+(* exactly one elaborated driver per assigned target, none for the others *)
+Theorem one_driver_per_target : forall prog d res, elab prog d = Some res ->
+  map fst res = assigned prog /\ NoDup (map fst res) /\
+  (forall l, In l (map fst res) <-> In l (map fst (slits prog))).
+Proof.
+  intros prog d res H. rewrite (elab_keys prog d res H). unfold assigned. repeat split.
+  - apply nodup_lhs_NoDup.
+  - apply nodup_lhs_in.
+  - apply nodup_lhs_in.
+Qed.
